@@ -94,6 +94,11 @@ def _arrays(tier, seed):
     out.append(("top_of_the_keyboard", [(108, 0, 4), (103, 4, 1), (100, 5, 1), (108, 6, 2), (105, 8, 1), (108, 9, 4), (107, 13, 1), (108, 14, 4), (103, 18, 2)]))
     out.append(("above_the_keyboard", [(120, 0, 2), (124, 2, 1), (127, 3, 2), (120, 5, 3), (122, 8, 1), (127, 9, 2), (125, 11, 1), (120, 12, 4)]))
     out.append(("flats_context", [(63, 0, 1), (58, 1, 1), (65, 2, 1), (68, 3, 1), (61, 4, 1), (66, 5, 1), (70, 6, 2)]))
+    # short diatonic melodies in minor keys (the ranking of a minor key against its relative major is the delicate one)
+    for k in range(10 if tier == "quick" else 40):
+        tonic = rng.choice([57, 60, 62, 64, 65, 67, 69])
+        scale = [0, 2, 3, 5, 7, 8, 10, 12] if k % 3 else [0, 2, 4, 5, 7, 9, 11, 12]
+        out.append(("diatonic_melody_%d" % k, [(tonic + rng.choice(scale), i * 0.5, rng.choice([0.5, 1.0, 1.5, 2.0])) for i in range(rng.randint(6, 12))]))
     n = 40 if tier == "quick" else 300
     out.append(("random_%d" % n, [(rng.randint(21, 108), round(rng.random() * 20, 2), round(rng.random() * 2, 2)) for _ in range(n)]))
     for k in range(3 if tier == "quick" else 12):
@@ -183,7 +188,7 @@ def bounded(b):
                 if (lo_p >= 33 if sgn == -1 else lo_p >= 0) and any(r[2] > 0 for r in rows):
                     up = estimate_key(_na([(p + 12 * sgn, o, d) for (p, o, d) in rows], unit), key_profiles=prof)
                     sc2 = estimate_key(_na([(p, o, d * 3) for (p, o, d) in rows], unit), key_profiles=prof)
-                    sc3 = estimate_key(_na([(p, o * 0.001, d * 0.001) for (p, o, d) in rows], unit), key_profiles=prof)
+                    sc3 = estimate_key(_na([(p, o * 1e-6, d * 1e-6) for (p, o, d) in rows], unit), key_profiles=prof)
                     sc4 = estimate_key(_na([(p, o * 0.01, d * 0.01) for (p, o, d) in rows], unit), key_profiles=prof)
                     eq = []
                     for k in (1 * sgn, 5 * sgn, 7 * sgn):
@@ -195,7 +200,7 @@ def bounded(b):
                         b.ties += 1
                     else:
                         b.case("key/unaffected_by_octave_shift_and_duration_scale", up == key and sc2 == key and (margin is None or margin < 1e-3 or (sc3 == key and sc4 == key)), kcase,
-                               "key %r, octave shifted %r, durations x3 %r, x0.001 %r, x0.01 %r" % (key, up, sc2, sc3, sc4), nontrivial=nontriv)
+                               "key %r, octave shifted %r, durations x3 %r, x1e-6 %r, x0.01 %r" % (key, up, sc2, sc3, sc4), nontrivial=nontriv)
                         b.case("key/transposing_by_k_semitones_transposes_the_tonic", all(eq), kcase, "equivariance fails for k in (1,5,7): %r" % eq, nontrivial=nontriv)
     _midi_import(b)
 
